@@ -8446,8 +8446,14 @@ class Outer_Shared_Do_Construct(BlockBase):  # R839
     def match(reader):
         content = []
         for cls in [Label_Do_Stmt, Do_Body, Shared_Term_Do_Construct]:
-            obj = cls(reader)
-            if obj is None:  # todo: restore reader
+            try:
+                obj = cls(reader)
+            except NoMatchError:
+                obj = None
+            if obj is None:
+                # No match: give back what has been consumed so far.
+                for previous in reversed(content):
+                    previous.restore_reader(reader)
                 return
             content.append(obj)
         return (content,)
@@ -8482,8 +8488,14 @@ class Inner_Shared_Do_Construct(BlockBase):  # R841
     def match(reader):
         content = []
         for cls in [Label_Do_Stmt, Do_Body, Do_Term_Shared_Stmt]:
-            obj = cls(reader)
-            if obj is None:  # todo: restore reader
+            try:
+                obj = cls(reader)
+            except NoMatchError:
+                obj = None
+            if obj is None:
+                # No match: give back what has been consumed so far.
+                for previous in reversed(content):
+                    previous.restore_reader(reader)
                 return
             content.append(obj)
         return (content,)
